@@ -273,16 +273,24 @@ def _rest(col, crate, adt, gi, DIMS, DATA, sfx):
                 col.violation("Y4" + sfx, key, b.loc(), "Tensor equality never compares `%s`: tensors with different %s compare equal" % (fname, "shapes" if fname == "dims" else "elements"))
 
     # ---------------- Y5b writers step the last index fastest
+    helpers_ = util.private_helpers(crate, "Tensor", exclude=[gi])
+    hkeys = {h.key for h in helpers_}
+    called_helpers = {util.callee_key(t) for x in crate.bodies for bb, t in x.calls()} & hkeys
     for b in crate.bodies:
         if b.is_closure:
             continue
+        if b.key in called_helpers:
+            continue  # a private helper: judged together with the functions that call it
         names_ = [t["fn"].get("name") for bb, t in b.calls()]
+        for h in util.helper_callees(crate, b, helpers_):
+            names_ += [t["fn"].get("name") for bb, t in h.calls()]
         if "rposition" in names_ or "position" in names_:
             zeroing = "fill" in names_
             if not zeroing:
                 # an explicit loop writing 0 behind the incremented position
-                Iw = util.analyse(b)
-                zeroing = any(e.kind == "store" and e.val == mk_int(0) for l in Iw.backedge_states.values() for st_ in l for e in st_.event_list())
+                for wb_ in [b] + util.helper_callees(crate, b, helpers_):
+                    Iw = util.analyser(helpers_)(wb_)
+                    zeroing = zeroing or any(e.kind == "store" and e.val == mk_int(0) for l in list(Iw.backedge_states.values()) + [Iw.inl_back] for st_ in l for e in st_.event_list())
             ok = "rposition" in names_ and "position" not in names_ and zeroing
             key = "%s|steps-last-index-fastest" % fk(b)
             if ok:
